@@ -106,7 +106,13 @@ def run_bounded():
     n = 0
     for fam in bounded_fams:
         outp = os.path.join(SCR, "b.json")
-        subprocess.run([os.path.join(SCR, "btarget", "release", "bounded"), fam, "--tier", "quick", "--out", outp, "--known", "/verif/known_findings.json"] + (["--focus", focus] if focus else []), capture_output=True, text=True, timeout=1200)
+        if os.path.exists(outp):
+            os.remove(outp)
+        try:
+            subprocess.run([os.path.join(SCR, "btarget", "release", "bounded"), fam, "--tier", "quick", "--out", outp, "--known", "/verif/known_findings.json"] + (["--focus", focus] if focus else []), capture_output=True, text=True, timeout=600)
+        except subprocess.TimeoutExpired:
+            n += 1  # the mutant hangs the library (e.g. a poll loop that never ends): killed
+            continue
         try:
             d = json.load(open(outp))
             n += len([f for f in d.get("failures", []) if not f.get("known") and (focus is None or focus in f.get("properties", []))])
